@@ -20,8 +20,8 @@ RULE = ("each run = one of 5 workloads (sync burst, async+collect, nested callba
         "(workload, schedule, side, call index, kind). non-trivial = the planned fault or close actually fired; distinct = distinct digests")
 STATE_MEASURE = "distinct (workload, side, transport-call kind, call index, fault kind | close plan) crash points that fired"
 REAL = ["rpyc.core.protocol.Connection (close/_cleanup/serve/serve_all/_dispatch)", "rpyc.core.async_", "rpyc.core.netref", "brine/vinegar",
-        "rpyc.core.channel.Channel", "rpyc.core.stream.SocketStream", "rpyc.core.service.Service hooks"]
-STUB = ["sockets/poll/time/locks (simulator)"]
+        "rpyc.core.channel.Channel", "rpyc.core.stream.SocketStream / PipeStream", "rpyc.lib.compat.PollingPoll", "rpyc.core.service.Service hooks"]
+STUB = ["sockets / pipes / select.poll / time / locks (simulator)"]
 ASSUMPTIONS = ["in-memory kernel fidelity (EOF/reset/EPIPE semantics)", "a requester-side write failure outside serve_all need not mark the "
                "connection closed (the statement promises that only for sides that close, are told to close, or fail while serving); the "
                "stream must be closed and a later close() must run the hook once"]
